@@ -203,6 +203,7 @@ unsafe impl<'a, Registry, Resources, Views, Indices> Send
     for Entries<'a, Registry, Resources, Views, Indices>
 where
     Registry: registry::Registry,
+    Views: Send,
 {
 }
 
@@ -212,6 +213,7 @@ unsafe impl<'a, Registry, Resources, Views, Indices> Sync
     for Entries<'a, Registry, Resources, Views, Indices>
 where
     Registry: registry::Registry,
+    Views: Sync,
 {
 }
 
